@@ -163,3 +163,66 @@ def outermost_replace_chains(node: ast.AST) -> List[Tuple[ast.Call, ast.expr, Li
                     cur = cur.func.value
                 out.append((n, base, chain))
     return out
+
+
+def path_conditions(fn_node: ast.AST, target: ast.AST) -> List[Tuple[ast.expr, bool]]:
+    """The branch conditions under which `target` executes inside `fn_node`:
+    [(test, branch)], conjunctions split into their conjuncts."""
+    from sa.flow import parent_map
+
+    parents = parent_map(fn_node)
+    out: List[Tuple[ast.expr, bool]] = []
+    cur: ast.AST = target
+    while True:
+        par = parents.get(id(cur))
+        if par is None:
+            break
+        if isinstance(par, (ast.If, ast.While)):
+            if cur in par.body:
+                out.extend(_split_cond(par.test, True))
+            elif cur in par.orelse:
+                out.extend(_split_cond(par.test, False))
+        elif isinstance(par, ast.IfExp):
+            if cur is par.body:
+                out.extend(_split_cond(par.test, True))
+            elif cur is par.orelse:
+                out.extend(_split_cond(par.test, False))
+        elif isinstance(par, ast.BoolOp) and isinstance(par.op, ast.And):
+            idx = par.values.index(cur) if cur in par.values else 0
+            for v in par.values[:idx]:
+                out.extend(_split_cond(v, True))
+        elif isinstance(par, ast.BoolOp) and isinstance(par.op, ast.Or):
+            idx = par.values.index(cur) if cur in par.values else 0
+            for v in par.values[:idx]:
+                out.extend(_split_cond(v, False))
+        cur = par
+    return out
+
+
+def _split_cond(test: ast.expr, branch: bool) -> List[Tuple[ast.expr, bool]]:
+    if isinstance(test, ast.UnaryOp) and isinstance(test.op, ast.Not):
+        return _split_cond(test.operand, not branch)
+    if isinstance(test, ast.BoolOp):
+        if isinstance(test.op, ast.And) and branch:
+            out: List[Tuple[ast.expr, bool]] = []
+            for v in test.values:
+                out.extend(_split_cond(v, True))
+            return out
+        if isinstance(test.op, ast.Or) and not branch:
+            out = []
+            for v in test.values:
+                out.extend(_split_cond(v, False))
+            return out
+    return [(test, branch)]
+
+
+def isinstance_classes(test: ast.expr) -> Optional[Tuple[str, List[str]]]:
+    """(subject path, class names) of an isinstance() test, else None."""
+    from sa.kinds import class_names
+
+    if isinstance(test, ast.Call) and isinstance(test.func, ast.Name) and test.func.id == "isinstance" and len(test.args) == 2:
+        p = path_of(test.args[0]) or ast.unparse(test.args[0])
+        names = class_names(test.args[1])
+        if names is not None:
+            return p, names
+    return None
